@@ -114,13 +114,14 @@ decreasing_by simp [Val.w]
 
 /-- values whose hashes are keyed by pairwise different non-empty strings, with Sensitive only around non-containers: the detailed
     type (Tuple of detailed types / Struct of detailed member types) is built without `commonType` -/
-inductive Val.Structy (cfg : Cfg) : Val → Prop
-  | leaf (v) : Val.Leafy cfg v → Val.Structy cfg v
-  | array (vs) : (∀ x ∈ vs, Val.Structy cfg x) → Val.Structy cfg (.array vs)
-  | hash (es : List (Val × Val)) : KeysNodup es → (∀ e ∈ es, ∃ s, e.1 = .str s ∧ s ≠ "") → (∀ e ∈ es, Val.Structy cfg e.2) →
-      Val.Structy cfg (.hash es)
+inductive Val.Structy (cfg : Cfg) (sfh : Bool) : Val → Prop
+  | leaf (v) : Val.Leafy cfg v → Val.Structy cfg sfh v
+  | known (v) : inst cfg sfh (dtype cfg sfh v) v = true → Val.Structy cfg sfh v   -- a sub-value for which the law is already established
+  | array (vs) : (∀ x ∈ vs, Val.Structy cfg sfh x) → Val.Structy cfg sfh (.array vs)
+  | hash (es : List (Val × Val)) : KeysNodup es → (∀ e ∈ es, ∃ s, e.1 = .str s ∧ s ≠ "") → (∀ e ∈ es, Val.Structy cfg sfh e.2) →
+      Val.Structy cfg sfh (.hash es)
 
-theorem dtype_structy : ∀ (n : Nat) (v : Val), v.w ≤ n → Val.Structy cfg v → inst cfg sfh (dtype cfg sfh v) v = true := by
+theorem dtype_structy : ∀ (n : Nat) (v : Val), v.w ≤ n → Val.Structy cfg sfh v → inst cfg sfh (dtype cfg sfh v) v = true := by
   intro n
   induction n with
   | zero => intro v h; have : 0 < v.w := by cases v <;> simp [Val.w] <;> omega
@@ -132,6 +133,7 @@ theorem dtype_structy : ∀ (n : Nat) (v : Val), v.w ≤ n → Val.Structy cfg v
       have : dtype cfg sfh v = ptype cfg sfh v := by
         cases v <;> first | (exact absurd hl id) | (unfold dtype; rfl)
       rw [this]; exact ptype_leafy cfg sfh v hl
+    | known _ hk => exact hk
     | array vs hall =>
       simp only [Val.w] at hw
       cases vs with
